@@ -170,15 +170,13 @@ theorem enter_from (P : Prog) (ee : EE) (A : CallSite → Prop) (hP : ∀ c ∈ 
       · exact ⟨by simp [Run.From], h1.setStuck _⟩
       · split
         · exact ⟨by simp [Run.From], h1⟩
-        · split
-          · exact ⟨by simp [Run.From], h1.setStuck _⟩
-          · rename_i n _ _ _
-            have hh := enterCalls_from P ee A hP f (List.replicate n.num.toNat c) env false
-              (fun k => (v, k) :: env.binds) 0 (s.readLimit ee lim env.ctx).2.pend.length true (s.readLimit ee lim env.ctx).2
-              (fun x hx => by rw [(List.mem_replicate.1 hx).2]; exact hc) h1
-            split
-            · exact ⟨by simp [Run.From], hh.2⟩
-            · exact ⟨by simp only [Run.From]; exact hh.1, hh.2⟩
+        · rename_i n _ _
+          have hh := enterCalls_from P ee A hP f (List.replicate n.floor.toNat c) env false
+            (fun k => (v, k) :: env.binds) 0 (s.readLimit ee lim env.ctx).2.pend.length true (s.readLimit ee lim env.ctx).2
+            (fun x hx => by rw [(List.mem_replicate.1 hx).2]; exact hc) h1
+          split
+          · exact ⟨by simp [Run.From], hh.2⟩
+          · exact ⟨by simp only [Run.From]; exact hh.1, hh.2⟩
 theorem enterBlk_from (P : Prog) (ee : EE) (A : CallSite → Prop) (hP : ∀ c ∈ P.sites, A c) :
     (f : Nat) → (b : List Stmt) → (env : Env) → (s : St) → (∀ c ∈ sitesL b, A c) → s.From A →
     (enterBlk P ee f b env s).1.From A ∧ (enterBlk P ee f b env s).2.From A
